@@ -132,6 +132,7 @@ type (
 		multiStore storetypes.CacheMultiStore
 		events     sdk.Events
 		transient  map[common.Address]Storage
+		origin     map[common.Address]Storage
 		balances   map[common.Address]*big.Int
 	}
 
